@@ -336,9 +336,13 @@ enum Mode {
     Plain,
     Counting,
     Modal,
+    /// tokenises like `plain`, measures every token end with `SourceTextRef::position_after_str`
+    Literal,
+    /// like `literal`, whitespace runs measured with `position_after_chars_matching`
+    Matching,
 }
 
-/// The one scanner type of the harness; `mode` selects `plain`, `counting` or `modal`.
+/// The one scanner type of the harness; `mode` selects `plain`, `counting`, `modal`, `literal` or `matching`.
 #[derive(Debug, Clone, PartialEq)]
 struct Scn {
     mode: Mode,
@@ -359,6 +363,8 @@ fn as_scanner(sx: &Sx) -> Result<Scn, String> {
         "plain" => Mode::Plain,
         "counting" => Mode::Counting,
         "modal" => Mode::Modal,
+        "literal" => Mode::Literal,
+        "matching" => Mode::Matching,
         other => return Err(format!("unknown scanner `{other}`")),
     }))
 }
@@ -403,10 +409,14 @@ impl Scanner for Scn {
         };
 
         let e = base.byte + len;
-        let end = source.column_metrics().end_position(&all[..e], base);
+        let end = match self.mode {
+            Mode::Matching if kind == Kind::Ws => source.position_after_chars_matching(base, is_ws)?,
+            Mode::Literal | Mode::Matching => source.position_after_str(base, &text[..len])?,
+            _ => source.column_metrics().end_position(&all[..e], base),
+        };
 
         let n = match self.mode {
-            Mode::Plain => 0,
+            Mode::Plain | Mode::Literal | Mode::Matching => 0,
             Mode::Counting => {
                 self.c += 1;
                 self.c
